@@ -1,9 +1,17 @@
 mod c01;
+mod c02;
+mod c03;
+mod c04;
 mod c05;
+mod c57;
 use vkit::{Check, Level};
 fn main() {
     vkit::main(&[
         Check { id: "C01", level: Level::Exploration, run: c01::run },
+        Check { id: "C02", level: Level::Exploration, run: c02::run },
+        Check { id: "C03", level: Level::Exploration, run: c03::run },
+        Check { id: "C04", level: Level::ModelChecking, run: c04::run },
         Check { id: "C05", level: Level::Exploration, run: c05::run },
+        Check { id: "C57", level: Level::Exploration, run: c57::run },
     ]);
 }
